@@ -432,6 +432,42 @@ def n27_map_idioms(src, log):
         log.append(f"N27 {what} -> contains_key / remove / insert")
 
 
+def n30_iter_for_each(src, log):
+    """E.iter().for_each(|X| BODY)   ->   for X in E.iter() { BODY; }          (E a plain identifier)
+       E.as_ref().iter().for_each(|X| BODY)   ->   if let Some(X) = E.as_ref() { BODY; }
+    (std: Iterator::for_each calls the closure once per item in order; the iterator of an Option yields its content once,
+    if there is one.  Needed where the closure captures a `&mut`, which Verus closures cannot.)"""
+    while True:
+        toks = lex(src)
+        hit = None
+        for i, t in enumerate(toks):
+            if not (t.text == "for_each" and i >= 5 and [x.text for x in toks[i - 5:i]] == [".", "iter", "(", ")", "."] and toks[i + 1].text == "("):
+                continue
+            o = i + 1
+            if toks[o + 1].text != "|" or toks[o + 2].kind != "ident" or toks[o + 3].text != "|":
+                continue
+            x = toks[o + 2].text
+            end = toks[o].mate
+            body = src[toks[o + 4].start:toks[end - 1].end]
+            semi = end + 1 < len(toks) and toks[end + 1].text == ";"
+            stop = toks[end + 1].end if semi else toks[end].end
+            k = i - 6
+            if toks[k].kind == "ident" and not (k >= 1 and toks[k - 1].text in (".", "::")):
+                e = toks[k].text
+                hit = (toks[k].start, stop, f"for {x} in {e}.iter() {{ {body}; }}", f"{e}.iter().for_each")
+                break
+            if k >= 4 and [y.text for y in toks[k - 3:k + 1]] == [".", "as_ref", "(", ")"] and toks[k - 4].kind == "ident" \
+                    and not (k >= 5 and toks[k - 5].text in (".", "::")):
+                e = toks[k - 4].text
+                hit = (toks[k - 4].start, stop, f"if let Some({x}) = {e}.as_ref() {{ {body}; }}", f"{e}.as_ref().iter().for_each")
+                break
+        if hit is None:
+            return src
+        a, b, rep, what = hit
+        src = src[:a] + rep + src[b:]
+        log.append(f"N30 {what}(|x| ..) -> {'for loop' if rep.startswith('for') else 'if let on the Option'}")
+
+
 def n28_into_iter_for_each(src, log):
     """E.into_iter().for_each(|X| { BODY });   ->   { let __vx_v = E; let mut __vx_q: usize = 0;
                                                         while __vx_q < __vx_v.len() { let X = __vx_v[__vx_q]; BODY __vx_q = __vx_q + 1; } }
@@ -1658,6 +1694,8 @@ def normalise(src, rules, log, ctx=None):
             src = n10_entry_append(src, log)
         elif r == "nmirlits":
             src = nmirlits(src, log)
+        elif r == "n30":
+            src = n30_iter_for_each(src, log)
         elif r == "n28":
             src = n28_into_iter_for_each(src, log)
         elif r == "n27":
